@@ -228,3 +228,245 @@ Lemma data_received_tie : forall s d,
   gen_data_received (fun s => header_too_long (cbuf s)) (fun s l => (parse_header s l, [])) (fun s k => (set_err s k, [])) s d
   = data_received gen_MAX_RESPONSE_BODY_SIZE s d.
 Proof. intros. apply data_received_gen; auto. Qed.
+
+(* ====================================================================== *)
+(* connection_lost: the string manipulation (is_text_meta, charset_of)     *)
+(* ====================================================================== *)
+
+Definition infix (p s : str) : Prop := exists a b, s = a ++ p ++ b.
+
+Lemma infix_refl s : infix s s.
+Proof. exists [], []. rewrite app_nil_r. reflexivity. Qed.
+Lemma infix_trans p q s : infix p q -> infix q s -> infix p s.
+Proof.
+  intros [a [b ->]] [c [d ->]]. exists (c ++ a), (b ++ d). rewrite <- !app_assoc. reflexivity.
+Qed.
+Lemma infix_lower p s : infix p s -> infix (lower p) (lower s).
+Proof. intros [a [b ->]]. exists (lower a), (lower b). unfold lower. rewrite !map_app. reflexivity. Qed.
+
+Lemma contains_infix : forall sub s, infix sub s -> contains sub s = true.
+Proof.
+  intros sub s [a [b ->]]. unfold contains.
+  induction a as [|x a IH].
+  - cbn [app]. destruct (sub ++ b) as [|y t] eqn:E.
+    + cbn [break_sub]. destruct sub; [reflexivity|discriminate].
+    + cbn [break_sub]. rewrite <- E, prefixb_app. reflexivity.
+  - cbn [app break_sub]. destruct (prefixb sub (x :: a ++ sub ++ b)); [reflexivity|].
+    destruct (break_sub sub (a ++ sub ++ b)) as [[u v]|]; [reflexivity|discriminate].
+Qed.
+
+Lemma split_on_aux_infix : forall c s cur q, In q (split_on_aux c cur s) -> infix q (rev cur ++ s).
+Proof.
+  intros c. induction s as [|x s IH]; intros cur q H.
+  - cbn [split_on_aux In] in H. destruct H as [<-|[]]. rewrite app_nil_r. apply infix_refl.
+  - cbn [split_on_aux] in H. destruct (x =? c)%N.
+    + destruct H as [<-|H].
+      * exists [], (x :: s). reflexivity.
+      * apply IH in H. cbn [rev app] in H. destruct H as [a [b ->]].
+        exists (rev cur ++ x :: a), b. rewrite <- app_assoc. reflexivity.
+    + apply IH in H. cbn [rev] in H. rewrite <- app_assoc in H. exact H.
+Qed.
+
+Lemma split_on_infix c s q : In q (split_on c s) -> infix q s.
+Proof. intro H. apply (split_on_aux_infix c s [] q H). Qed.
+
+Lemma split_on_aux_head : forall c s cur, exists p t, split_on_aux c cur s = p :: t.
+Proof.
+  intros c. induction s as [|x s IH]; intros cur; cbn [split_on_aux]; [eauto|].
+  destruct (x =? c)%N; eauto.
+Qed.
+
+Lemma split_on_nth0 c s :
+  nth_error (split_on c s) 0 = Some (match split_on c s with p :: _ => p | [] => [] end).
+Proof. unfold split_on. destruct (split_on_aux_head c s []) as [p [t ->]]. reflexivity. Qed.
+
+Lemma lstrip_by_suffix p s : exists a, s = a ++ lstrip_by p s.
+Proof.
+  induction s as [|x s [a IH]]; [exists []; reflexivity|].
+  cbn [lstrip_by]. destruct (p x); [exists (x :: a); cbn [app]; f_equal; exact IH|exists []; reflexivity].
+Qed.
+
+Lemma strip_by_infix p s : infix (strip_by p s) s.
+Proof.
+  unfold strip_by, rstrip_by.
+  destruct (lstrip_by_suffix p s) as [a Ha].
+  destruct (lstrip_by_suffix p (rev (lstrip_by p s))) as [b Hb].
+  apply (f_equal (@rev N)) in Hb. rewrite rev_involutive, rev_app_distr in Hb.
+  exists a, (rev b). rewrite <- Hb. exact Ha.
+Qed.
+
+Definition has_cs (p : str) : bool := prefixb (lit "charset=") (lower p).
+
+(* a part that starts with "charset=" (in any case) contains "=" *)
+Lemma has_cs_break p : has_cs p = true -> exists a v, break_at 61 p = Some (a, v).
+Proof.
+  intro H. destruct (break_at 61 p) as [[a v]|] eqn:E; [eauto|].
+  exfalso. apply break_at_None in E. apply E.
+  apply prefixb_spec in H. destruct H as [r Hr].
+  assert (Hin : In 61%N (lower p)). { rewrite Hr. vm_compute. tauto. }
+  apply StrLemmas.In_lower in Hin. destruct Hin as [Hin|Hl]; [exact Hin|discriminate].
+Qed.
+
+Lemma find_has_cs_contains m p :
+  find has_cs (map ustrip (split_on 59 m)) = Some p -> contains (lit "charset=") (lower m) = true.
+Proof.
+  intro H. apply find_some in H. destruct H as [Hin Hp].
+  apply in_map_iff in Hin. destruct Hin as [q [<- Hq]].
+  apply contains_infix. apply prefixb_spec in Hp. destruct Hp as [r Hr].
+  apply infix_trans with (lower (ustrip q)).
+  - exists [], r. exact Hr.
+  - apply infix_lower. apply infix_trans with q; [apply strip_by_infix|apply (split_on_infix _ _ _ Hq)].
+Qed.
+
+(* the loop of connection_lost over the ";"-separated parts, as generated *)
+Definition charset_of_parts (l : list str) (cs : str) : str :=
+  match find has_cs (map ustrip l) with
+  | Some p => match break_at ch_eq p with
+              | Some (_, v) => strip_by (fun c => (c =? 34)%N || (c =? 39)%N) (ustrip v)
+              | None => lit "utf-8"
+              end
+  | None => cs
+  end.
+
+Lemma charset_loop : forall l cs,
+  (fix loop1__ (l__ : list str) (charset : str) {struct l__} : res (str) :=
+     match l__ with
+     | [] => Ok charset
+     | part :: l'__ =>
+         (let part := (ustrip part) in
+          (if (prefixb (lit "charset=") (lower part))
+           then (match (nth_error (split1 (lit "=") part) 1) with
+                 | Some v4__ => (let charset := (strip_by (fun c__ => (N.eqb c__ 34%N) || (N.eqb c__ 39%N)) (ustrip v4__)) in (Ok charset))
+                 | None => (Err (lit "IndexError") (@nil N))
+                 end)
+           else (loop1__ l'__ charset)))
+     end) l cs = Ok (charset_of_parts l cs).
+Proof.
+  induction l as [|q l IH]; intros cs; [reflexivity|].
+  unfold charset_of_parts. cbn [map find]. cbv zeta.
+  fold (has_cs (ustrip q)). destruct (has_cs (ustrip q)) eqn:E.
+  - destruct (has_cs_break _ E) as [a [v Hb]].
+    unfold split1. change (lit "=") with [61%N]. rewrite break_sub_char, Hb.
+    change ch_eq with 61%N. rewrite Hb. reflexivity.
+  - rewrite IH. reflexivity.
+Qed.
+
+Lemma meta_or_empty (m : str) : (if match m with [] => false | _ => true end then m else []) = m.
+Proof. destruct m; reflexivity. Qed.
+
+Lemma eqb_nil (m : str) : eqb m [] = match m with [] => true | _ => false end.
+Proof. destruct m; reflexivity. Qed.
+
+(* ====================================================================== *)
+(* connection_lost                                                         *)
+(* ====================================================================== *)
+
+Lemma connection_lost_tie : forall dw url db s exc,
+  (cfut s = Pending -> hdr s = true -> status s <> None) ->
+  gen_connection_lost dw url db s (option_map (app (lit "conn:")) exc) = (connection_lost db dw s exc, []).
+Proof.
+  intros dw url db s exc HJ. unfold gen_connection_lost, connection_lost, fut_done.
+  destruct (cfut s) eqn:Hf; [|reflexivity].
+  assert (SE : forall k, upd_cfut s (Done (RErr k)) = set_err s k).
+  { intro k. unfold set_err, upd_cfut. rewrite Hf. reflexivity. }
+  cbv zeta. rewrite !meta_or_empty.
+  destruct exc as [k|]; cbn [option_map].
+  { rewrite <- SE. reflexivity. }
+  destruct (hdr s) eqn:Hh; cbn [negb].
+  2:{ rewrite <- SE. reflexivity. }
+  destruct (status s) as [v|] eqn:Es; [|exfalso; apply HJ; auto].
+  unfold is_2x. destruct ((20 <=? v)%N && (v <? 30)%N); [|unfold upd_cfut; rewrite Hh, Es; reflexivity].
+  rewrite split_on_nth0. unfold is_text_meta. change ch_semi with 59%N. rewrite eqb_nil.
+  destruct ((_ || _) && db); [|unfold upd_cfut; rewrite Hh, Es; reflexivity].
+  assert (CS : (if contains (lit "charset=") (lower (meta s))
+                then charset_of_parts (split_on 59 (meta s)) (lit "utf-8") else lit "utf-8") = charset_of (meta s)).
+  { unfold charset_of, charset_of_parts. change ch_semi with 59%N. fold has_cs.
+    destruct (contains (lit "charset=") (lower (meta s))) eqn:Ec; [reflexivity|].
+    destruct (find has_cs (map ustrip (split_on 59 (meta s)))) as [p|] eqn:Ef; [|reflexivity].
+    apply find_has_cs_contains in Ef. congruence. }
+  rewrite <- CS. rewrite charset_loop.
+  destruct (contains (lit "charset=") (lower (meta s)));
+    (destruct (dw _ (cbuf s)); [unfold upd_cfut; rewrite Hh, Es; reflexivity|rewrite <- SE; reflexivity]).
+Qed.
+
+(* ====================================================================== *)
+(* the callbacks as a whole: generated callees inside generated callers    *)
+(* ====================================================================== *)
+
+Lemma cstep_data_tie : forall request soc db dw s d,
+  connected s = true ->
+  gen_data_received gen_header_too_long (gen_parse_header gen_set_error) gen_set_error s d
+  = cstep request soc db gen_MAX_RESPONSE_BODY_SIZE dw s (CData d).
+Proof.
+  intros. cbn [cstep]. apply data_received_gen; auto.
+  - apply header_too_long_tie.
+  - intros. apply parse_header_gen. apply set_error_tie.
+  - apply set_error_tie.
+Qed.
+
+Lemma cstep_lost_tie : forall request soc db cap dw url s exc,
+  (cfut s = Pending -> hdr s = true -> status s <> None) ->
+  gen_connection_lost dw url db s (option_map (app (lit "conn:")) exc) = cstep request soc db cap dw s (CLost exc).
+Proof. intros. cbn [cstep]. apply connection_lost_tie; assumption. Qed.
+
+Lemma cstep_connected_tie : forall soc db cap dw url b s,
+  encode (url ++ [13; 10]%N) = Some b ->
+  gen_connection_made (gen_send_request url) soc s = cstep [b] soc db cap dw s CConnected.
+Proof. intros. apply connection_made_gen. intro s0. apply send_request_tie. assumption. Qed.
+
+(* ====================================================================== *)
+(* the two state hypotheses hold on every state the callbacks can reach    *)
+(* ====================================================================== *)
+
+Lemma inv_run : forall request soc db cap dw evs s,
+  C13_proofs.J s -> C13_proofs.J (fst (crun request soc db cap dw s evs)).
+Proof.
+  induction evs as [|e evs IH]; intros s HJ; [exact HJ|].
+  cbn [crun]. pose proof (C13_proofs.J_cstep db cap dw request soc s e HJ) as H1.
+  destruct (cstep request soc db cap dw s e) as [s1 a]. cbn [fst] in H1.
+  specialize (IH s1 H1). destruct (crun request soc db cap dw s1 evs) as [s2 l]. exact IH.
+Qed.
+
+Lemma status_known_reachable : forall request soc db cap dw evs,
+  let s := fst (crun request soc db cap dw cinit evs) in
+  cfut s = Pending -> hdr s = true -> status s <> None.
+Proof.
+  intros request soc db cap dw evs. apply (inv_run request soc db cap dw evs cinit).
+  unfold C13_proofs.J. cbn. discriminate.
+Qed.
+
+Lemma connected_data_received cap s d : connected (fst (data_received cap s d)) = connected s.
+Proof.
+  unfold data_received. cbv zeta. cbn [cbuf hdr status meta cfut connected].
+  destruct (negb (hdr s) && _); [cbn [fst]; rewrite connected_set_err; reflexivity|].
+  destruct (negb (hdr s)).
+  2:{ destruct (_ && _); cbn [fst]; [rewrite connected_set_err|]; reflexivity. }
+  destruct (break_crlf (cbuf s ++ d)) as [[l body]|].
+  2:{ destruct (_ && _); cbn [fst]; [rewrite connected_set_err|]; reflexivity. }
+  destruct (decode l) as [line|]; [|reflexivity].
+  destruct (status (parse_header _ line)) as [v|] eqn:Es; cbn [fst connected].
+  - destruct (is_2x v); cbn [status]; rewrite ?Es;
+      (destruct (_ && _); cbn [fst]; [rewrite connected_set_err|]; cbn [connected]; rewrite connected_parse_header; reflexivity).
+  - rewrite connected_parse_header. reflexivity.
+Qed.
+
+Lemma connected_connection_lost db dw s exc : connected (connection_lost db dw s exc) = connected s.
+Proof.
+  unfold connection_lost. destruct (cfut s); [|reflexivity].
+  destruct exc; [apply connected_set_err|].
+  destruct (negb (hdr s)); [apply connected_set_err|].
+  destruct (status s); [|reflexivity].
+  destruct (is_2x n); [|reflexivity].
+  destruct (_ && _); [|reflexivity].
+  destruct (dw _ _); [reflexivity|apply connected_set_err].
+Qed.
+
+Lemma connected_stable : forall request soc db cap dw s e,
+  connected s = true -> connected (fst (cstep request soc db cap dw s e)) = true.
+Proof.
+  intros request soc db cap dw s e H. destruct e; cbn [cstep fst].
+  - reflexivity.
+  - exact H.
+  - rewrite connected_data_received. exact H.
+  - rewrite connected_connection_lost. exact H.
+Qed.
